@@ -1069,7 +1069,7 @@ func (c *Ctx) recordDistinctIDs(env *Env, e ast.Expr) {
 		}
 		isID := func(e ast.Expr) bool {
 			s, ok := e.(*ast.SelectorExpr)
-			return ok && s.Sel.Name == "id"
+			return ok && (s.Sel.Name == "id" || strings.HasPrefix(s.Sel.Name, "g_"))
 		}
 		if !isID(x.X) || !isID(x.Y) {
 			return
